@@ -109,13 +109,14 @@ int merge_msa(struct msa** dest, struct msa* src)
         }
 
         for(i = 0; i < src->numseq;i++){
+                /* the readers leave a full table (numseq == alloc_numseq) behind: grow before the slot is touched */
+                if(d->alloc_numseq == d->numseq){
+                        RUN(resize_msa(d));
+                }
                 free_msa_seq(d->sequences[d->numseq]);
                 d->sequences[d->numseq] = src->sequences[i];
                 src->sequences[i] = NULL;
                 d->numseq++;
-                if(d->alloc_numseq == d->numseq){
-                        RUN(resize_msa(d));
-                }
         }
         RUN(detect_alphabet(d));
         RUN(detect_aligned(d));
